@@ -47,3 +47,48 @@ def provision(rep, types, why):
         rep.guarded("R-C06-provision", one)
     rep.floor("R-C06-provision", sum(PROVISION_N[t] for t in types))
     rep.clause("R-C06-provision", "the fixed-output request covers every frame the next call reads, in every context that recomputes it (shared with C06): " + why)
+
+
+def restore(rep, types, why):
+    import C10
+    for t in types:
+        rep.guarded("R-C10-restore", lambda r, t=t: C10.rule_restore(r, t))
+    rep.clause("R-C10-restore", "reset() restores every state field to its constructor value (shared with C10): " + why)
+
+
+def agree(rep, why, counter=False):
+    import C04
+    for t in RESAMPLERS:
+        def one(r, t=t):
+            m = C04.rule_agree(r, t)
+            if counter and RESAMPLERS[t]["async"] and RESAMPLERS[t]["fixed"] == "in":
+                C04.rule_counter(r, t, asyncmodel.extract(r.ctx.facts, t))
+        rep.guarded("R-C04-agree", one)
+    rep.floor("R-C04-agree", 14)
+    if counter:
+        rep.floor("R-C04-counter", 11)
+    rep.clause("R-C04-agree", "getter = validated minimum = slice bound = returned count, for both sides of all seven types (shared with C04): " + why)
+
+
+def wrappers(rep, why):
+    import C16
+    rep.guarded("R-C16-process", C16.rule_process)
+    rep.guarded("R-C16-partial", C16.rule_partial)
+    rep.floor("R-C16-process", 12)
+    rep.floor("R-C16-partial", 5)
+    rep.clause("R-C16-process / R-C16-partial", "the allocating / padding wrappers size, pad, call and truncate consistently (shared with C16): " + why)
+
+
+def conserve(rep, why):
+    import fftmodel
+    rep.guarded("R-C07-conserve", fftmodel.rule_conserve, "R-C07-conserve")
+    rep.floor("R-C07-conserve", 16)
+    rep.clause("R-C07-conserve", "the FFT adapters hand exactly the accounted frames to the unit, once and in order, and park the remainder (shared with C07/C05): " + why)
+
+
+def bound(rep, types, why):
+    import C03
+    import C05
+    for t in types:
+        rep.guarded("R-C05-bound", lambda r, t=t: C03.rule_margin(C05.FinalStep(r), t, asyncmodel.extract(r.ctx.facts, t)))
+    rep.clause("R-C05-bound", "fixed-input loops stop while the kernel still reads loaded frames only (reach + final step subtracted from the bound; shared with C05): " + why)
